@@ -115,6 +115,9 @@ class struct(_composite_base):
             else:
                 lhs[:] = rhs[:]
         elif codec_kind.is_composite(type(rhs)):
+            if lhs is None:
+                setattr(self, name, True)
+                lhs = getattr(self, name)
             lhs.copy_from(rhs)
         else:
             self._fields[name] = rhs
